@@ -78,7 +78,7 @@ func TestC15(t *testing.T) {
 	defer r.Finish(t)
 	r.Assume("an 'install' is observed at the store's boundary: the bytes a Secret handle yields changed across a Refresh (whatever Refresh returned)",
 		"in the concurrent part a Get that overlaps an install may legitimately return the older or the newer value")
-	n := r.N(3000, 60000)
+	n := r.N(20000, 300000)
 	for i := 0; i < n; i++ {
 		if r.Skip(i) {
 			continue
@@ -86,7 +86,7 @@ func TestC15(t *testing.T) {
 		seqCase(r, i)
 	}
 	if r.Only < 0 {
-		for i := 0; i < r.N(40, 800); i++ {
+		for i := 0; i < r.N(100, 1500); i++ {
 			concCase(t, r, i)
 		}
 	}
